@@ -369,6 +369,9 @@ def compare(impl_line, model_line, op="", ignore_pend=False):
         b["racy"] = True
         b["codes"] = list(b["d"])
     if not b["racy"]:
+        # a publication push goes through the queue, a ReplyWithoutQueue reply does not: no fixed order
+        for x in (a, b):
+            x["fr"] = [f for f in x["fr"] if f != "pub"] + [f for f in x["fr"] if f == "pub"]
         if multi:  # callbacks fired concurrently: order of their effects is not fixed
             a["fr"], b["fr"], a["h"], b["h"] = sorted(a["fr"]), sorted(b["fr"]), sorted(a["h"]), sorted(b["h"])
         if (a["fr"], canon_h(a["h"]), a["d"], a["p"], a["pend"]) == (b["fr"], canon_h(b["h"]), b["d"], b["p"], b["pend"]):
@@ -412,7 +415,9 @@ def run(ctx):
         "`send` is one-way: a send that carries an id is not owed a reply (DESIGN.md §4 C09)",
         "the application invokes each handler callback exactly once (the harness does)"]
     proofs_ok = ctx.lean_obligations()
+    ctx.log("lean obligations done")
     binary = ctx.go_test_binary(".", HARNESS)
+    ctx.log("harness built")
     if binary is None:
         ctx.violation("correspondence", "harness no longer builds against package centrifuge",
                       signature={"kind": "harness-build"}, replay={"log": getattr(ctx, "build_error", "")}, no_input=True)
@@ -425,10 +430,12 @@ def run(ctx):
         for _ in range(ctx.scale(4000, 120000)):
             ops += gen_scenario(ctx.rng)
     impl = par_go_run(ctx, binary, ops)
+    ctx.log("implementation run done")
     model = ctx.lean_run(ops)
     if model is None:
         proofs_ok = False
         model = []
+    ctx.log("model run done")
     nviol = ndiff = 0
     for idxs in split_scenarios(ops):
         sops = [ops[i] for i in idxs]
